@@ -482,6 +482,41 @@ fn check_helpers(n: usize, p: &mut Partial) {
     if !mc_core::rel_close(sq, esq, 1e-12, 1e-300) {
         viol(format!("sq_norm_sum n={n}"), format!("got {sq} expected {esq}"), p);
     }
+    // sq_norm_sum probes: near-cancelling operands (y ~ -x: the regime of a well adapted
+    // transformation), large magnitudes whose squares are still finite, one infinity / NaN at
+    // every index - the plain formula sum (x_i + y_i)^2 has non-negative terms only
+    if n > 0 {
+        let next_down = |v: f64| if v == 0.0 { -f64::MIN_POSITIVE } else { f64::from_bits(if v > 0.0 { v.to_bits() - 1 } else { v.to_bits() + 1 }) };
+        let probes: Vec<(&str, Vec<f64>, Vec<f64>)> = vec![
+            ("cancel", x.clone(), x.iter().map(|v| -next_down(*v)).collect()),
+            ("cancel-1e-9", x.clone(), x.iter().map(|v| -v * (1.0 + 1e-9)).collect()),
+            ("large", (0..n).map(|i| if i % 2 == 0 { 1e160 } else { -3e159 }).collect(), (0..n).map(|i| if i % 2 == 0 { -1e160 + 1e150 } else { 3e159 + 2e149 }).collect()),
+        ];
+        for (name, xs, ys) in probes {
+            let got = m.sq_norm_sum(&col(&xs), &col(&ys));
+            let (want, _) = csum((0..n).map(|i| (xs[i] + ys[i]) * (xs[i] + ys[i])));
+            p.evaluations += 1;
+            if !(mc_core::rel_close(got, want, 1e-12, 0.0) || got == want) {
+                viol(format!("sq_norm_sum-{name} n={n}"), format!("got {got:e} expected {want:e}"), p);
+            }
+        }
+        for i in 0..n {
+            for (name, sv, other) in [("inf", f64::INFINITY, 0.5), ("neginf", f64::NEG_INFINITY, 0.5), ("nan", f64::NAN, 0.5)] {
+                let mut xs = x.clone();
+                let mut ys = y.clone();
+                xs[i] = sv;
+                ys[i] = other;
+                let got = m.sq_norm_sum(&col(&xs), &col(&ys));
+                let want: f64 = (0..n).map(|j| (xs[j] + ys[j]) * (xs[j] + ys[j])).sum();
+                p.evaluations += 1;
+                let same = (got.is_nan() && want.is_nan()) || got == want;
+                if !same {
+                    viol(format!("sq_norm_sum-{name} n={n} i={i}"), format!("got {got} expected {want}"), p);
+                    break;
+                }
+            }
+        }
+    }
     let mut r = m.new_array();
     m.array_recip(&col(&pos), &mut r);
     let r = uncol(&r);
@@ -562,6 +597,7 @@ fn check_helpers(n: usize, p: &mut Partial) {
         let mut mom = base(n, 5);
         let nm = mom.iter().map(|t| t * t).sum::<f64>().sqrt();
         mom.iter_mut().for_each(|t| *t /= nm);
+        esh_sphere_probes(&mut m, n, &g, p, "");
         for step in [1e-3, 0.1, 0.9, -0.3] {
             let (e_after, e_dke) = crate::common::refmodel::esh_reference(&g, &mom, step);
             let mut mc = col(&mom);
@@ -579,6 +615,56 @@ fn check_helpers(n: usize, p: &mut Partial) {
             }
         }
     }
+}
+
+/// ESH momentum update on the sphere: momenta (anti)parallel to the gradient and tiny rotations of
+/// them x small to saturating update arguments; the result is a unit vector and (where the update
+/// is well conditioned) the closed-form ESH update with its kinetic-energy change.
+pub fn esh_sphere_probes<MM: Math<Vector = Col<f64>>>(m: &mut MM, n: usize, g: &[f64], p: &mut Partial, prefix: &str) {
+    if n < 2 {
+        return;
+    }
+        // momenta (anti)parallel to the gradient and tiny rotations of them, small to saturating
+        // update arguments: the result stays on the unit sphere and equals the closed form
+        let gn = g.iter().map(|t| t * t).sum::<f64>().sqrt();
+        let ghat: Vec<f64> = g.iter().map(|t| t / gn).collect();
+        // a unit vector orthogonal to ghat
+        let mut orth: Vec<f64> = (0..n).map(|i| if i == 0 { ghat[1] } else if i == 1 { -ghat[0] } else { 0.0 }).collect();
+        let on = orth.iter().map(|t| t * t).sum::<f64>().sqrt();
+        if on > 1e-6 {
+            orth.iter_mut().for_each(|t| *t /= on);
+            for theta in [0.0, 1e-9, 1e-7, 1e-4, 1e-2, 1.0, std::f64::consts::PI - 1e-4, std::f64::consts::PI] {
+                // theta measured from -ghat
+                let mom: Vec<f64> = (0..n).map(|i| -ghat[i] * f64::cos(theta) + orth[i] * f64::sin(theta)).collect();
+                for delta in [1e-3, 0.5, 3.0, 8.0, 20.0, 30.0] {
+                    let step = delta * (n as f64 - 1.0) / gn;
+                    let (e_after, e_dke) = crate::common::refmodel::esh_reference(&g, &mom, step);
+                    let mut mc = col(&mom);
+                    let dke = m.esh_momentum_update(&col(&g), &mut mc, step);
+                    let got = uncol(&mc);
+                    p.evaluations += 1;
+                    let nrm = got.iter().map(|t| t * t).sum::<f64>().sqrt();
+                    // direction and energy change are only comparable where the update is well
+                    // conditioned: for a momentum within ~1e-3 rad of -g/|g| and a saturating
+                    // argument the result hinges on the rounding of 1 + p.g/|g| in either code
+                    let alpha = -f64::cos(theta);
+                    let cond = 1.0 + alpha + (1.0 - alpha) * (-2.0 * delta).exp();
+                    let comparable = cond > 1e-5;
+                    if !comparable {
+                        p.count("esh_probes_ill_conditioned_(unit_norm_checked_only)", 1);
+                    }
+                    let bad = !((nrm - 1.0).abs() <= 1e-12)
+                        || (comparable && ((0..n).any(|i| !((got[i] - e_after[i]).abs() <= 1e-8)) || !mc_core::rel_close(dke, e_dke, 1e-8, 1e-9)));
+                    if bad {
+                        p.violation(
+                            format!("{prefix}esh-antiparallel n={n} theta={theta:e} delta={delta}"),
+                            format!("|p| = {nrm}, dke got {dke} expected {e_dke}, p[0..2] = {:?} expected {:?}", &got[..2], &e_after[..2]),
+                            json!({"n": n, "theta": theta, "delta": delta}),
+                        );
+                    }
+                }
+            }
+        }
 }
 
 pub fn run(tier: Tier, _replay: Option<String>) -> i32 {
